@@ -22,6 +22,7 @@
 #include <rfb/rfbregion.h>
 #include <jpeglib.h>
 #include <setjmp.h>
+#include <sys/resource.h>
 #include "minilzo.h"
 
 extern void (*rfbVerifPreEncodeHook)(rfbClientPtr, sraRegionPtr, sraRegionPtr, int, int);
@@ -247,6 +248,9 @@ static void op_unlzo(long outlen, const char *hex) {
 #define MAXT 600
 int main(void) {
   char *line; static char *tok[MAXT];
+  { /* a spinning encoder must end the run by itself, whatever the load of the machine: CPU-time limit
+       (the heaviest legitimate script needs a few seconds of CPU under ASan) -> SIGXCPU */
+    struct rlimit rl; rl.rlim_cur = 90; rl.rlim_max = 100; setrlimit(RLIMIT_CPU, &rl); }
   rfbVerifPreEncodeHook = hook;
   while ((line = vh_readline())) {
     int n = vh_split(line, tok, MAXT);
